@@ -10,7 +10,7 @@
 From Coq Require Import NArith ZArith List Bool.
 From XV Require Import Base.Str Spec.Infoset Model.Generic
   Proofs.GenericParse Proofs.GenericWrite Proofs.GenericRoundtrip Proofs.GenericNs Proofs.GenericHolder
-  Proofs.GenericRefute.
+  Proofs.GenericHolderW Proofs.GenericRefute.
 Import ListNotations.
 
 (* ---- the generic tree -------------------------------------------------------------- *)
@@ -77,6 +77,15 @@ Theorem C11_holder_roundtrip :
     holder_roundtrip c o t = Some (norm_ws_root (canon [] t)).
 Proof. exact holder_roundtrip_ok. Qed.
 Print Assumptions C11_holder_roundtrip.
+
+(* the same through the faithful model of EventHandler.write; holder_pre_w = holder_pre
+   and the two writer clauses (xsi:nil, datatype Clark values) *)
+Theorem C11_holder_roundtrip_written :
+  forall c o t,
+    is_full o -> holder_pre_w c t = true ->
+    holder_written c o t = Some (norm_ws_root (canon [] t)).
+Proof. exact holder_written_ok. Qed.
+Print Assumptions C11_holder_roundtrip_written.
 
 (* ---- namespace constraints ------------------------------------------------------------ *)
 Theorem C11_match_namespace_spec :
@@ -192,3 +201,10 @@ Example C11_match_namespace_guard_nonvacuous :
           [KOther; KLocal; KTarget; KUri [117;114;110;58;99]%N] = true.
 Proof. exact match_namespace_guard_nonvacuous. Qed.
 Print Assumptions C11_match_namespace_guard_nonvacuous.
+
+Example C11_holder_pre_w_nonvacuous :
+  holder_pre_w cfg_single w_ok_holder = true /\ holder_pre_w cfg_list w_ok_holder = true /\
+  holder_pre_w cfg_mixed w_ok_holder = true /\ holder_pre_w cfg_choice w_ok_choice = true /\
+  holder_pre_w cfg_list_amap w_ok_amap = true.
+Proof. exact holder_pre_w_nonvacuous. Qed.
+Print Assumptions C11_holder_pre_w_nonvacuous.
